@@ -432,13 +432,22 @@ class Problem:
             sd_ = 0
         self._priv = np.random.default_rng(sd_ + 12345)
 
+    def _tframe(self):
+        fr = self.spec.get("target_frame")
+        if fr is None:
+            return self.plb, self.pub, self.logm
+        if getattr(self, "_tf", None) is None:
+            fl, fu, fpl, fpu = (arr(fr[k]) for k in ("lb", "ub", "plb", "pub"))
+            self._tf = (fpl, fpu, is_log_coord(fl, fu, fpl, fpu))
+        return self._tf
+
     def clean(self, x):
         x = np.asarray(x, float).ravel()
-        return eval_land(self.target, tmap(x, self.plb, self.pub, self.logm))
+        return eval_land(self.target, tmap(x, *self._tframe()))
 
     def sd_at(self, x):
         x = np.asarray(x, float).ravel()
-        tt = tmap(x, self.plb, self.pub, self.logm)
+        tt = tmap(x, *self._tframe())
         return float(self.noise["sigma"] * (1.0 + 0.5 * float(np.sum(np.abs(tt - 0.5)))))
 
     def _randn(self):
